@@ -763,6 +763,25 @@ pub fn calibrate(slot: &mut Slot, n: usize, batch_size: u8) -> Result<(), String
     if (0..n).all(|w| slot.map.contains_key(&(n, w))) {
         return Ok(());
     }
+    // another process may grab the slot's port between the free-port test and the server's bind:
+    // move the slot to fresh ports and try again (the map is per port, nothing is lost)
+    let mut last = String::new();
+    for _ in 0..4 {
+        match calibrate_once(slot, n, batch_size) {
+            Ok(()) => return Ok(()),
+            Err(e) if e.contains("Address already in use") => {
+                last = e;
+                slot.port = free_port();
+                slot.hport = free_port();
+                slot.map.clear();
+            }
+            Err(e) => return Err(e),
+        }
+    }
+    Err(last)
+}
+
+fn calibrate_once(slot: &mut Slot, n: usize, batch_size: u8) -> Result<(), String> {
     let scn = Scenario { name: format!("calibrate-{}", n), workers: n, health: false, stats: false, batch_size, env: vec![], idle_iteration: false, horizon: 10_000, expect: Expect::Serving, probe_at_end: false };
     let id = EXEC_ID.fetch_add(1, Relaxed);
     let mut c = Ctl::start(&scn, slot, id)?;
